@@ -144,6 +144,8 @@ theorem bisectForward_post (ph : Phys) : ∀ (fuel : Nat) (b s e eg es : Int) (c
       unfold bisectForward
       refine hoare_ite _ _ _ (fun _ => ?_) (fun _ => ?_)
       · refine hoare_bind _ _ (hoare_any _) (fun eg' => ?_)
+        obtain ⟨berr, eg'⟩ := eg'
+        refine hoare_ite _ _ _ (fun hneg => hoare_pure _ (fun _ _ => ⟨Int.le_of_lt hneg, fun h => absurd h (by omega)⟩)) (fun _ => ?_)
         intro s0 _
         refine ⟨by show (0 : Int) ≤ 0; decide, fun _ => ?_⟩
         refine ⟨m + 1, by omega, ⟨rfl, ?_, ?_, ?_, ?_, ?_⟩, fun i h1 h2 => by omega, ?_⟩
@@ -161,6 +163,8 @@ theorem bisectForward_post (ph : Phys) : ∀ (fuel : Nat) (b s e eg es : Int) (c
           rw [get_set_ne _ _ _ _ (by omega), get_set_eq _ _ _ (by simp)]
       · refine hoare_bind _ _ (hoare_any _) (fun next => ?_)
         refine hoare_bind _ _ (hoare_any _) (fun searchgran => ?_)
+        obtain ⟨berr2, searchgran⟩ := searchgran
+        refine hoare_ite _ _ _ (fun hneg => hoare_pure _ (fun _ _ => ⟨Int.le_of_lt hneg, fun h => absurd h (by omega)⟩)) (fun _ => ?_)
         refine hoare_bind _ _ (hoare_any _) (fun _ => ?_)
         refine hoare_bind _ _ (hoare_weaken _ (fetchHeaders_rc ph none) (fun _ _ => trivial) (fun _ _ h => h)) (fun x => ?_)
         obtain ⟨rc2, nlist⟩ := x
